@@ -182,12 +182,14 @@ Fixpoint visit_s (s : stmt) (st : state) {struct s} : state :=
       let s1 := visit_b b (enter st) in
       let s2 := visit_b e (if_mid st s1) in
       if_finish st s1 s2
-  | SLoop forever b e =>
+  | SLoop k b e =>
+      let forever := is_forever k in
+      let always := is_always k in
       let m1 := visit_b b (loop_body_entry st) in
       let o2 := loop_after_body st m1 in
-      let st2 := loop_st2 forever st o2 in
-      let e2 := visit_b e (loop_else_entry forever e st2 o2) in
-      let st4 := loop_st4 forever st2 o2 e2 in
+      let st2 := loop_st2 always st o2 in
+      let e2 := visit_b e (loop_else_entry always e st2 o2) in
+      let st4 := loop_st4 always st2 o2 e2 in
       (* second collecting visit of the body *)
       let r1 := visit_b b (enter st4) in
       loop_finish forever (loop_scopes m1) (restore st4 r1)
